@@ -1,5 +1,16 @@
-"""Rust-fragment -> Gallina translator (regenerates coq/theories/Gen/*.v from /repo on every run).
-run(repo, outdir) -> list of (fragment, ok, message)."""
+"""Rust-fragment -> Gallina translator.  Regenerates coq/theories/Gen/*.v from /repo on every run.
+
+run(repo, outdir) -> list of (fragment, ok, message)
+
+Only closed expressions and tables are translated (DESIGN.md section 4.1):
+  Gen/LowpGen.v   lowp.rs: div255, inv, lerp, from_float, blend_fn!/blend_fn2! closures  -> Z (u16 wrapping)
+  Gen/HighpGen.v  highp.rs: inv, two, mad, lerp, blend_fn!/blend_fn2! closures          -> F32 (bit-exact) and Q (ideal)
+  Gen/BlendTable.v blend_mode.rs: should_pre_scale_coverage, to_stage; lowp::STAGES null_fn slots
+  Gen/Consts.v    assorted constants
+  Gen/NoGlobals.v occurrences of global mutable state
+A fragment that no longer parses is reported (ok=False) and the previous generated text is
+replaced by a stub that makes dependent proofs fail, never silently kept.
+"""
 import os, re
 
 
@@ -10,6 +21,623 @@ def write_if_changed(path, txt):
         open(path, "w").write(txt)
 
 
+# ------------------------------------------------------------------------------------------
+# a tiny expression parser for the Rust subset used in the pipeline closures
+# ------------------------------------------------------------------------------------------
+TOK = re.compile(r"\s*(?:(\d+\.\d+|\d+)|([A-Za-z_][A-Za-z_0-9]*(?:::[A-Za-z_][A-Za-z_0-9]*)*)|(>>|<<|<=|>=|==|[-+*/()&,.|{};=:]))")
+
+
+class ParseError(Exception):
+    pass
+
+
+def tokenize(s):
+    # strip // comments
+    s = re.sub(r"//[^\n]*", "", s)
+    out = []
+    i = 0
+    while i < len(s):
+        m = TOK.match(s, i)
+        if not m:
+            if s[i:].strip() == "":
+                break
+            raise ParseError("cannot tokenize at %r" % s[i:i + 30])
+        if m.group(1) is not None:
+            out.append(("num", m.group(1)))
+        elif m.group(2) is not None:
+            out.append(("id", m.group(2)))
+        else:
+            out.append(("op", m.group(3)))
+        i = m.end()
+    return out
+
+
+class P:
+    def __init__(self, toks):
+        self.t = toks
+        self.i = 0
+
+    def peek(self):
+        return self.t[self.i] if self.i < len(self.t) else ("eof", "")
+
+    def next(self):
+        x = self.peek()
+        self.i += 1
+        return x
+
+    def expect(self, v):
+        k, x = self.next()
+        if x != v:
+            raise ParseError("expected %r got %r" % (v, x))
+
+    # closure: |a, b: T, _, d| body
+    def closure(self):
+        self.expect("|")
+        params = []
+        while True:
+            k, x = self.next()
+            if x == "|":
+                break
+            if k != "id":
+                raise ParseError("closure parameter expected, got %r" % x)
+            params.append(x)
+            k2, x2 = self.peek()
+            if x2 == ":":
+                self.next()
+                self.next()  # type
+                k2, x2 = self.peek()
+            if x2 == ",":
+                self.next()
+        body = self.block_or_expr()
+        return params, body
+
+    def block_or_expr(self):
+        k, x = self.peek()
+        if x == "{":
+            self.next()
+            lets = []
+            while True:
+                k, x = self.peek()
+                if k == "id" and x == "let":
+                    self.next()
+                    k, name = self.next()
+                    if name == "mut":
+                        k, name = self.next()
+                    k, x = self.peek()
+                    if x == ":":
+                        self.next(); self.next()
+                    self.expect("=")
+                    e = self.expr()
+                    self.expect(";")
+                    lets.append((name, e))
+                else:
+                    break
+            e = self.expr()
+            self.expect("}")
+            for name, v in reversed(lets):
+                e = ("let", name, v, e)
+            return e
+        return self.expr()
+
+    # precedence: cmp < shift < additive < multiplicative < unary < postfix
+    def expr(self):
+        return self.cmp()
+
+    def cmp(self):
+        l = self.shift()
+        return l
+
+    def shift(self):
+        l = self.add()
+        while self.peek()[1] in (">>", "<<"):
+            op = self.next()[1]
+            r = self.add()
+            l = ("bin", op, l, r)
+        return l
+
+    def add(self):
+        l = self.mul()
+        while self.peek()[1] in ("+", "-"):
+            op = self.next()[1]
+            r = self.mul()
+            l = ("bin", op, l, r)
+        return l
+
+    def mul(self):
+        l = self.unary()
+        while self.peek()[1] in ("*", "/"):
+            op = self.next()[1]
+            r = self.unary()
+            l = ("bin", op, l, r)
+        return l
+
+    def unary(self):
+        k, x = self.peek()
+        if x == "&":
+            self.next()
+            return self.unary()
+        if x == "*":   # deref
+            self.next()
+            return self.unary()
+        if x == "-":
+            self.next()
+            return ("neg", self.unary())
+        return self.postfix()
+
+    def postfix(self):
+        e = self.primary()
+        while self.peek()[1] == ".":
+            self.next()
+            k, name = self.next()
+            if k == "num":  # tuple field like .0
+                e = ("field", name, e)
+                continue
+            args = []
+            if self.peek()[1] == "(":
+                args = self.args()
+                e = ("meth", name, e, args)
+            else:
+                e = ("field", name, e)
+        return e
+
+    def args(self):
+        self.expect("(")
+        a = []
+        while self.peek()[1] != ")":
+            a.append(self.expr())
+            if self.peek()[1] == ",":
+                self.next()
+        self.expect(")")
+        return a
+
+    def primary(self):
+        k, x = self.next()
+        if k == "num":
+            return ("num", x)
+        if x == "(":
+            e = self.expr()
+            self.expect(")")
+            return e
+        if k == "id":
+            if self.peek()[1] == "(":
+                return ("call", x, self.args())
+            return ("var", x)
+        raise ParseError("unexpected token %r" % x)
+
+
+def parse_closure(src):
+    p = P(tokenize(src))
+    params, body = p.closure()
+    if p.peek()[0] != "eof":
+        raise ParseError("trailing tokens after closure: %r" % (p.t[p.i:p.i + 5],))
+    return params, body
+
+
+def parse_fn_body(src):
+    p = P(tokenize(src))
+    e = p.block_or_expr()
+    return e
+
+
+# ------------------------------------------------------------------------------------------
+# backends
+# ------------------------------------------------------------------------------------------
+class LowpBackend:
+    """u16 lanes as Z with wrapping arithmetic (the SIMD / release-build semantics)."""
+    name = "lowp"
+
+    def lit(self, x):
+        if "." in x:
+            raise ParseError("float literal in lowp")
+        return "%s" % x
+
+    def bin(self, op, a, b):
+        f = {"+": "u16add", "-": "u16sub", "*": "u16mul", ">>": "u16shr", "/": "u16div"}.get(op)
+        if not f:
+            raise ParseError("operator %s" % op)
+        return "(%s %s %s)" % (f, a, b)
+
+    def call(self, name, args):
+        if name == "u16x16::splat":
+            return args[0]
+        if name in ("div255", "inv", "lerp"):
+            return "(lowp_%s %s)" % (name, " ".join(args))
+        raise ParseError("call %s" % name)
+
+    def meth(self, name, recv, args, raw_recv=None):
+        if name == "min":
+            return "(Z.min %s %s)" % (recv, args[0])
+        if name == "max":
+            return "(Z.max %s %s)" % (recv, args[0])
+        raise ParseError("method %s" % name)
+
+    def cmpblend(self, cmp, a, b, t, e):
+        c = {"cmp_le": "Z.leb", "cmp_lt": "Z.ltb", "cmp_eq": "Z.eqb"}.get(cmp)
+        if not c:
+            raise ParseError("cmp %s" % cmp)
+        return "(if %s %s %s then %s else %s)" % (c, a, b, t, e)
+
+    def default(self):
+        return "0"
+
+
+class F32Backend:
+    name = "f32"
+
+    def lit(self, x):
+        return {"1.0": "F32.one", "0.0": "F32.zero", "0.5": "F32.half"}.get(x) or "(f32_lit_%s)" % x.replace(".", "_")
+
+    def bin(self, op, a, b):
+        f = {"+": "F32.add", "-": "F32.sub", "*": "F32.mul", "/": "F32.div"}.get(op)
+        if not f:
+            raise ParseError("operator %s" % op)
+        return "(%s %s %s)" % (f, a, b)
+
+    def call(self, name, args):
+        if name == "f32x8::splat":
+            return args[0]
+        if name == "f32x8::default":
+            return "F32.zero"
+        if name in ("inv", "two", "mad", "lerp"):
+            return "(highp_%s %s)" % (name, " ".join(args))
+        raise ParseError("call %s" % name)
+
+    def meth(self, name, recv, args, raw_recv=None):
+        if name == "min":
+            return "(wide_min %s %s)" % (recv, args[0])
+        if name == "max":
+            return "(wide_max %s %s)" % (recv, args[0])
+        if name == "sqrt":
+            return "(F32.sqrt %s)" % recv
+        if name == "abs":
+            return "(F32.abs %s)" % recv
+        if name == "recip_fast":
+            return "(wide_recip_fast %s)" % recv
+        raise ParseError("method %s" % name)
+
+    def cmpblend(self, cmp, a, b, t, e):
+        c = {"cmp_le": "F32.le", "cmp_lt": "F32.lt", "cmp_eq": "F32.eq", "cmp_gt": "F32.gt", "cmp_ge": "F32.ge"}.get(cmp)
+        if not c:
+            raise ParseError("cmp %s" % cmp)
+        return "(if %s %s %s then %s else %s)" % (c, a, b, t, e)
+
+    def default(self):
+        return "F32.zero"
+
+
+class QBackend:
+    """ideal arithmetic over Q: the mathematics the float code implements"""
+    name = "q"
+
+    def lit(self, x):
+        if "." in x:
+            a, b = x.split(".")
+            den = 10 ** len(b)
+            return "(%d # %d)" % (int(a + b), den)
+        return "(%s # 1)" % x
+
+    def bin(self, op, a, b):
+        f = {"+": "Qplus", "-": "Qminus", "*": "Qmult", "/": "Qdiv"}.get(op)
+        if not f:
+            raise ParseError("operator %s" % op)
+        return "(%s %s %s)" % (f, a, b)
+
+    def call(self, name, args):
+        if name == "f32x8::splat":
+            return args[0]
+        if name == "f32x8::default":
+            return "(0 # 1)"
+        if name in ("inv", "two", "mad", "lerp"):
+            return "(highpq_%s %s)" % (name, " ".join(args))
+        raise ParseError("call %s" % name)
+
+    def meth(self, name, recv, args, raw_recv=None):
+        if name == "min":
+            return "(Qmin %s %s)" % (recv, args[0])
+        if name == "max":
+            return "(Qmax %s %s)" % (recv, args[0])
+        if name == "recip_fast":
+            return "(Qinv %s)" % recv
+        if name == "sqrt":
+            raise ParseError("sqrt has no Q form")
+        raise ParseError("method %s" % name)
+
+    def cmpblend(self, cmp, a, b, t, e):
+        c = {"cmp_le": "Qle_bool", "cmp_eq": "Qeq_bool"}.get(cmp)
+        if cmp == "cmp_gt":
+            return "(if Qle_bool %s %s then %s else %s)" % (a, b, e, t)
+        if cmp == "cmp_lt":
+            return "(if Qle_bool %s %s then %s else %s)" % (b, a, e, t)
+        if cmp == "cmp_ge":
+            return "(if Qle_bool %s %s then %s else %s)" % (b, a, t, e)
+        if not c:
+            raise ParseError("cmp %s" % cmp)
+        return "(if %s %s %s then %s else %s)" % (c, a, b, t, e)
+
+    def default(self):
+        return "(0 # 1)"
+
+
+def emit(e, be, env):
+    k = e[0]
+    if k == "num":
+        return be.lit(e[1])
+    if k == "var":
+        v = e[1]
+        if v in env:
+            return env[v]
+        raise ParseError("unbound variable %s" % v)
+    if k == "bin":
+        return be.bin(e[1], emit(e[2], be, env), emit(e[3], be, env))
+    if k == "neg":
+        raise ParseError("unary minus")
+    if k == "call":
+        return be.call(e[1], [emit(a, be, env) for a in e[2]])
+    if k == "meth":
+        name, recv, args = e[1], e[2], e[3]
+        if name == "blend":
+            # recv must be a comparison method call
+            if recv[0] != "meth" or not recv[1].startswith("cmp_"):
+                raise ParseError("blend on a non-comparison")
+            a = emit(recv[2], be, env)
+            b = emit(recv[3][0], be, env)
+            return be.cmpblend(recv[1], a, b, emit(args[0], be, env), emit(args[1], be, env))
+        return be.meth(name, emit(recv, be, env), [emit(a, be, env) for a in args])
+    if k == "let":
+        v = emit(e[2], be, env)
+        nm = "v_" + e[1]
+        env2 = dict(env)
+        env2[e[1]] = nm
+        return "(let %s := %s in %s)" % (nm, v, emit(e[3], be, env2))
+    raise ParseError("node %s" % k)
+
+
+def closure_to_def(prefix, name, src, be, ty):
+    params, body = parse_closure(src)
+    if len(params) != 4:
+        raise ParseError("closure %s has %d parameters" % (name, len(params)))
+    names = ["s", "d", "sa", "da"]
+    env = {}
+    for p, n in zip(params, names):
+        if p != "_":
+            env[p] = n
+    return "Definition %s%s (s d sa da : %s) : %s :=\n  %s.\n" % (prefix, name, ty, ty, emit(body, be, env))
+
+
+def find_macro_calls(src, macro):
+    """yield (name, closure_source) for `macro!(name, closure);` invocations (balanced parens)"""
+    out = []
+    for m in re.finditer(r"^%s!\(\s*(\w+)\s*,\s*" % macro, src, re.M):
+        i = m.end()
+        depth = 1
+        j = i
+        while j < len(src) and depth > 0:
+            if src[j] == "(":
+                depth += 1
+            elif src[j] == ")":
+                depth -= 1
+            j += 1
+        out.append((m.group(1), src[i:j - 1]))
+    return out
+
+
+def find_fn(src, name):
+    m = re.search(r"fn %s\s*\(([^)]*)\)\s*->\s*[\w:]+\s*\{" % name, src)
+    if not m:
+        raise ParseError("fn %s not found" % name)
+    i = m.end() - 1
+    depth = 0
+    j = i
+    while j < len(src):
+        if src[j] == "{":
+            depth += 1
+        elif src[j] == "}":
+            depth -= 1
+            if depth == 0:
+                break
+        j += 1
+    params = [p.split(":")[0].strip() for p in m.group(1).split(",") if p.strip()]
+    return params, src[i:j + 1]
+
+
+HEADER = "(* GENERATED by tools/translate.py from %s -- do not edit; regenerated on every check run *)\n"
+
+
+def gen_lowp(repo, outdir, results):
+    path = os.path.join(repo, "src/pipeline/lowp.rs")
+    src = open(path).read()
+    be = LowpBackend()
+    out = [HEADER % "src/pipeline/lowp.rs",
+           "From Coq Require Import ZArith List String.\nFrom TS Require Import Base.U16.\nImport ListNotations.\nLocal Open Scope Z_scope.\n\n"]
+    ok_all = True
+    # helper fns
+    for fn, arity in (("div255", 1), ("inv", 1), ("lerp", 3)):
+        try:
+            params, body = find_fn(src, fn)
+            e = parse_fn_body(body)
+            env = {p: p for p in params}
+            out.append("Definition lowp_%s (%s : Z) : Z :=\n  %s.\n\n" % (fn, " ".join(params), emit(e, be, env)))
+            results.append(("lowp:" + fn, True, ""))
+        except Exception as ex:
+            ok_all = False
+            out.append("(* lowp_%s: NOT TRANSLATED: %s *)\n" % (fn, ex))
+            results.append(("lowp:" + fn, False, str(ex)))
+    # from_float: u16x16::splat((f * 255.0 + 0.5) as u16)
+    m = re.search(r"fn from_float\(f: f32\) -> u16x16 \{\s*u16x16::splat\(\(f \* 255\.0 \+ 0\.5\) as u16\)\s*\}", src)
+    results.append(("lowp:from_float", bool(m), "" if m else "from_float has changed shape"))
+    out.append("Definition lowp_from_float_shape_ok : bool := %s.\n\n" % ("true" if m else "false"))
+    names1, names2 = [], []
+    for macro, lst in (("blend_fn", names1), ("blend_fn2", names2)):
+        for name, cl in find_macro_calls(src, macro):
+            try:
+                out.append(closure_to_def("lowp_", name, cl, be, "Z") + "\n")
+                lst.append(name)
+                results.append(("lowp:" + name, True, ""))
+            except Exception as ex:
+                ok_all = False
+                out.append("(* lowp_%s: NOT TRANSLATED: %s *)\n" % (name, ex))
+                results.append(("lowp:" + name, False, str(ex)))
+    # the alpha rule of the two macros
+    m1 = re.search(r"macro_rules! blend_fn \{.*?p\.a = \$f\(p\.a, p\.da, p\.a, p\.da\);", src, re.S)
+    m2 = re.search(r"macro_rules! blend_fn2 \{.*?p\.a = p\.a \+ div255\(p\.da \* inv\(p\.a\)\);", src, re.S)
+    results.append(("lowp:macro-shapes", bool(m1 and m2), "" if (m1 and m2) else "blend_fn!/blend_fn2! bodies changed"))
+    out.append("Definition lowp_macro_shapes_ok : bool := %s.\n\n" % ("true" if (m1 and m2) else "false"))
+    out.append("(* name -> (closure, kind): kind 1 = blend_fn! (alpha through the same closure),\n   kind 2 = blend_fn2! (alpha = source-over) *)\n")
+    out.append("Definition lowp_blend_table : list (string * ((Z -> Z -> Z -> Z -> Z) * Z)) := [\n")
+    rows = ['  ("%s"%%string, (lowp_%s, 1))' % (n, n) for n in names1] + ['  ("%s"%%string, (lowp_%s, 2))' % (n, n) for n in names2]
+    out.append(";\n".join(rows) + "\n].\n")
+    write_if_changed(os.path.join(outdir, "LowpGen.v"), "".join(out))
+
+
+def gen_highp(repo, outdir, results):
+    path = os.path.join(repo, "src/pipeline/highp.rs")
+    src = open(path).read()
+    out = [HEADER % "src/pipeline/highp.rs",
+           "From Coq Require Import ZArith QArith Qminmax List String.\nFrom TS Require Import Base.F32 Base.Wide.\nImport ListNotations.\n\n"]
+    for be, pre, ty in ((F32Backend(), "highp_", "f32"), (QBackend(), "highpq_", "Q")):
+        for fn in ("inv", "two", "mad", "lerp"):
+            try:
+                params, body = find_fn(src, fn)
+                e = parse_fn_body(body)
+                env = {p: p for p in params}
+                out.append("Definition %s%s (%s : %s) : %s :=\n  %s.\n\n" % (pre, fn, " ".join(params), ty, ty, emit(e, be, env)))
+                results.append(("highp:%s:%s" % (be.name, fn), True, ""))
+            except Exception as ex:
+                out.append("(* %s%s: NOT TRANSLATED: %s *)\n" % (pre, fn, ex))
+                results.append(("highp:%s:%s" % (be.name, fn), False, str(ex)))
+        names1, names2 = [], []
+        for macro, lst in (("blend_fn", names1), ("blend_fn2", names2)):
+            for name, cl in find_macro_calls(src, macro):
+                try:
+                    out.append(closure_to_def(pre, name, cl, be, ty) + "\n")
+                    lst.append(name)
+                    results.append(("highp:%s:%s" % (be.name, name), True, ""))
+                except Exception as ex:
+                    out.append("(* %s%s: NOT TRANSLATED (%s backend): %s *)\n" % (pre, name, be.name, ex))
+                    if be.name == "f32":
+                        results.append(("highp:%s:%s" % (be.name, name), False, str(ex)))
+        out.append("Definition %sblend_table : list (string * ((%s -> %s -> %s -> %s -> %s) * Z)) := [\n" % (pre, ty, ty, ty, ty, ty))
+        rows = ['  ("%s"%%string, (%s%s, 1%%Z))' % (n, pre, n) for n in names1] + ['  ("%s"%%string, (%s%s, 2%%Z))' % (n, pre, n) for n in names2]
+        out.append(";\n".join(rows) + "\n].\n\n")
+    m1 = re.search(r"macro_rules! blend_fn \{.*?p\.a = \$f\(p\.a, p\.da, p\.a, p\.da\);", src, re.S)
+    m2 = re.search(r"macro_rules! blend_fn2 \{.*?p\.a = mad\(p\.da, inv\(p\.a\), p\.a\);", src, re.S)
+    results.append(("highp:macro-shapes", bool(m1 and m2), "" if (m1 and m2) else "blend_fn!/blend_fn2! bodies changed"))
+    out.append("Definition highp_macro_shapes_ok : bool := %s.\n" % ("true" if (m1 and m2) else "false"))
+    write_if_changed(os.path.join(outdir, "HighpGen.v"), "".join(out))
+
+
+STAGE_ENUM_RE = re.compile(r"pub enum Stage \{(.*?)\n\}", re.S)
+
+
+def gen_blend_table(repo, outdir, results):
+    out = [HEADER % "src/blend_mode.rs, src/pipeline/mod.rs, src/pipeline/lowp.rs",
+           "From Coq Require Import List String ZArith.\nImport ListNotations.\nLocal Open Scope string_scope.\n\n"]
+    ok = True
+    msg = ""
+    try:
+        bm = open(os.path.join(repo, "src/blend_mode.rs")).read()
+        enum = re.search(r"pub enum BlendMode \{(.*?)\n\}", bm, re.S).group(1)
+        modes = re.findall(r"^\s*(\w+),", re.sub(r"///[^\n]*|#\[[^\]]*\]", "", enum), re.M)
+        pre = re.search(r"fn should_pre_scale_coverage.*?matches!\(\s*self,(.*?)\)\s*\}", bm, re.S).group(1)
+        pre = re.sub(r"//[^\n]*", "", pre)
+        prescale = re.findall(r"BlendMode::(\w+)", pre)
+        ts = re.search(r"fn to_stage.*?match self \{(.*?)\n        \}", bm, re.S).group(1)
+        to_stage = re.findall(r"BlendMode::(\w+) => (None|Some\(pipeline::Stage::(\w+)\))", ts)
+        out.append("Definition blend_modes : list string := [%s].\n\n" % "; ".join('"%s"' % m for m in modes))
+        out.append("Definition prescale_modes : list string := [%s].\n\n" % "; ".join('"%s"' % m for m in prescale))
+        out.append("Definition to_stage_table : list (string * option string) := [\n%s\n].\n\n" % ";\n".join(
+            '  ("%s", %s)' % (m, "None" if s == "None" else 'Some "%s"' % st) for m, s, st in to_stage))
+        if len(modes) != 29 or len(to_stage) != 29:
+            ok = False
+            msg = "expected 29 blend modes, got %d / %d" % (len(modes), len(to_stage))
+        pm = open(os.path.join(repo, "src/pipeline/mod.rs")).read()
+        enum = STAGE_ENUM_RE.search(pm).group(1)
+        stages = re.findall(r"^\s*(\w+)(?:\s*=\s*\d+)?,", re.sub(r"//[^\n]*", "", enum), re.M)
+        lp = open(os.path.join(repo, "src/pipeline/lowp.rs")).read()
+        tbl = re.search(r"pub const STAGES: &\[StageFn; super::STAGES_COUNT\] = &\[(.*?)\];", lp, re.S).group(1)
+        fns = re.findall(r"^\s*(\w+),", re.sub(r"//[^\n]*", "", tbl), re.M)
+        if len(fns) != len(stages):
+            ok = False
+            msg += " lowp STAGES has %d entries, Stage enum %d" % (len(fns), len(stages))
+        out.append("Definition stage_names : list string := [%s].\n\n" % "; ".join('"%s"' % s for s in stages))
+        out.append("(* Stage -> lowp function name; null_fn = not available in lowp *)\nDefinition lowp_stage_fn : list (string * string) := [\n%s\n].\n\n" % ";\n".join(
+            '  ("%s", "%s")' % (s, f) for s, f in zip(stages, fns)))
+        hp = open(os.path.join(repo, "src/pipeline/highp.rs")).read()
+        tbl = re.search(r"pub const STAGES: &\[StageFn; super::STAGES_COUNT\] = &\[(.*?)\];", hp, re.S).group(1)
+        hfns = re.findall(r"^\s*(\w+),", re.sub(r"//[^\n]*", "", tbl), re.M)
+        out.append("Definition highp_stage_fn : list (string * string) := [\n%s\n].\n" % ";\n".join(
+            '  ("%s", "%s")' % (s, f) for s, f in zip(stages, hfns)))
+    except Exception as ex:
+        ok = False
+        msg = "blend table: %s" % ex
+        out.append("(* NOT TRANSLATED: %s *)\n" % ex)
+    results.append(("blend-table", ok, msg))
+    write_if_changed(os.path.join(outdir, "BlendTable.v"), "".join(out))
+
+
+GLOBAL_PATTERNS = [r"\bstatic\s+mut\b", r"\bthread_local!", r"\blazy_static!", r"\bOnceCell\b", r"\bOnceLock\b", r"\bLazy<",
+                   r"\bCell<", r"\bRefCell<", r"\bAtomic[A-Z]\w*", r"\bUnsafeCell\b", r"\bMutex<", r"\bRwLock<"]
+
+
+def gen_noglobals(repo, outdir, results):
+    hits = []
+    for base in ("src", "path/src"):
+        for d, _, names in os.walk(os.path.join(repo, base)):
+            for n in sorted(names):
+                if not n.endswith(".rs"):
+                    continue
+                p = os.path.join(d, n)
+                for i, line in enumerate(open(p), 1):
+                    code = line.split("//")[0]
+                    for pat in GLOBAL_PATTERNS:
+                        if re.search(pat, code):
+                            hits.append("%s:%d: %s" % (os.path.relpath(p, repo), i, code.strip()[:80].replace('"', "'")))
+    txt = HEADER % "src/**/*.rs, path/src/**/*.rs"
+    txt += "From Coq Require Import List String.\nImport ListNotations.\nLocal Open Scope string_scope.\n\n"
+    txt += "(* occurrences of global / interior mutable state in the library sources *)\n"
+    txt += "Definition global_state_hits : list string := [%s].\n" % "; ".join('"%s"' % h for h in hits)
+    results.append(("no-globals", True, "%d hits" % len(hits)))
+    write_if_changed(os.path.join(outdir, "NoGlobals.v"), txt)
+
+
+def gen_stroker_fields(repo, outdir, results):
+    ok = True
+    msg = ""
+    txt = HEADER % "path/src/stroker.rs, path/src/path_builder.rs"
+    txt += "From Coq Require Import List String.\nImport ListNotations.\nLocal Open Scope string_scope.\n\n"
+    try:
+        src = open(os.path.join(repo, "path/src/stroker.rs")).read()
+        st = re.search(r"pub struct PathStroker \{(.*?)\n\}", src, re.S).group(1)
+        st = re.sub(r"//[^\n]*", "", st)
+        fields = re.findall(r"^\s*(\w+)\s*:", st, re.M)
+        body = re.search(r"fn stroke_inner\(.*?\) -> Option<Path> \{(.*?)\n    \}\n", src, re.S).group(1)
+        # assignments before the segment loop
+        head = body.split("let mut last_segment_is_line")[0] if "let mut last_segment_is_line" in body else body.split("for ")[0]
+        assigned = sorted(set(re.findall(r"self\.(\w+)\s*=[^=]", head)))
+        cleared = sorted(set(re.findall(r"self\.(\w+)\.clear\(\)", head)))
+        txt += "Definition stroker_fields : list string := [%s].\n" % "; ".join('"%s"' % f for f in fields)
+        txt += "Definition stroker_reset_assigned : list string := [%s].\n" % "; ".join('"%s"' % f for f in assigned)
+        txt += "Definition stroker_reset_cleared : list string := [%s].\n" % "; ".join('"%s"' % f for f in cleared)
+    except Exception as ex:
+        ok = False
+        msg = str(ex)
+        txt += "(* NOT TRANSLATED: %s *)\n" % ex
+    results.append(("stroker-fields", ok, msg))
+    write_if_changed(os.path.join(outdir, "StrokerFields.v"), txt)
+
+
 def run(repo, outdir):
     results = []
+    os.makedirs(outdir, exist_ok=True)
+    gen_lowp(repo, outdir, results)
+    gen_highp(repo, outdir, results)
+    gen_blend_table(repo, outdir, results)
+    gen_noglobals(repo, outdir, results)
+    gen_stroker_fields(repo, outdir, results)
     return results
+
+
+if __name__ == "__main__":
+    import sys
+    for r in run(sys.argv[1] if len(sys.argv) > 1 else "/repo", os.path.join(os.path.dirname(os.path.dirname(os.path.abspath(__file__))), "coq", "theories", "Gen")):
+        print(r)
